@@ -113,7 +113,17 @@ def gen_case(rng, tier):
             style = {"spaces": rng.choice([[0], [1], [0, 1, 2]]), "pow": rng.choice(["^", "**"]), "extra_parens": rng.choice([0.0, 0.1, 0.3])}
             e2 = e if k == 0 else commute(rng, e)
             variants.append({"string": render(rng, e2, style), "ddt": rng.random() < 0.5, "rename": rng.random() < 0.25})
-        return {"expr": e, "env": {k: C.q2s(v) for k, v in env.items()}, "variants": variants, "value": C.q2s(val)}
+        case = {"expr": e, "env": {k: C.q2s(v) for k, v in env.items()}, "variants": variants, "value": C.q2s(val)}
+        if rng.random() < 0.4:
+            env2 = {n: F(rng.randint(-4, 4), rng.choice([1, 1, 2])) for n in used}
+            try:
+                val2 = M.ev(e, lambda x: env2[x], {})
+                if N.bits(val2) <= 46:
+                    case["env2"] = {k: C.q2s(v) for k, v in env2.items()}
+                    case["value2"] = C.q2s(val2)
+            except ZeroDivisionError:
+                pass
+        return case
     raise C.HarnessError("expression generator failed")
 
 
@@ -133,10 +143,18 @@ def impl_eval(case):
                 try:
                     cg = ComputeGraph(backend="default", float_precision="float64")
                     args = {k: {"vtype": "constant", "value": val, "dtype": "float64", "shape": ()} for k, val in env.items()}
-                    ExpressionParser(expr_str=v["string"], args=args, cg=cg).parse_expr()
+                    pvars = ExpressionParser(expr_str=v["string"], args=args, cg=cg).parse_expr()
                     r["direct"] = C.f2s(np.asarray(cg.eval_node(cg.var_updates["non-DEs"]["x"]), dtype=float).reshape(-1)[0])
+                    if case.get("env2"):
+                        # the same graph evaluated again after its variables received other values
+                        for k2, v2 in case["env2"].items():
+                            if hasattr(pvars[k2], "set_value"):          # a variable that sympy simplified away never became a graph node
+                                pvars[k2].set_value(np.asarray(float(F(v2))))
+                        r["direct2"] = C.f2s(np.asarray(cg.eval_node(cg.var_updates["non-DEs"]["x"]), dtype=float).reshape(-1)[0])
                 except Exception as e:
-                    r["direct"] = f"raise:{type(e).__name__}:{str(e)[:80]}"
+                    r.setdefault("direct", f"raise:{type(e).__name__}:{str(e)[:80]}")
+                    if case.get("env2") and "direct2" not in r:
+                        r["direct2"] = f"raise:{type(e).__name__}:{str(e)[:80]}"
                 # (b) generated code of a one-equation operator
                 try:
                     if v.get("rename"):
@@ -195,6 +213,39 @@ def reserved_stream(names):
     return out
 
 
+# ------------------------------------------------------------------ names that look like the labels given to summed sources
+def shadow_stream(_):
+    """an input variable driven by two operators of the same node (PyRates labels the sources r_v1, r_v2, ... / r_in0 ...) next to a variable of the consumer that
+    literally carries such a label, declared as input or as constant: every variable keeps its own meaning"""
+    from pyrates import OperatorTemplate, NodeTemplate, CircuitTemplate, clear_frontend_caches
+    bad, done = [], 0
+    r1, a, r2, b, c0, v, k, tau, bias = 0.5, 2.0, 1.5, 3.0, 0.25, 0.75, 1.25, 2.0, 0.375
+    with M.Scratch():
+        with warnings.catch_warnings():
+            warnings.simplefilter("ignore")
+            for base in ("r", "x"):
+                for shadow in (f"{base}_v1", f"{base}_v2", f"{base}_in0", f"{base}_in1", f"{base}_v1_v1"):
+                    for decl in ("input", "const"):
+                        for vec in (False, True):
+                            exp = {f"p/op1/{base}": -a * r1, f"p/op2/{base}": -b * r2 + c0, "p/op3/v": -v / tau + k * (r1 + r2) + bias}
+                            try:
+                                op1 = OperatorTemplate(name="op1", equations=[f"{base}' = -a*{base}"], variables={base: f"output({r1})", "a": a}, path=None)
+                                op2 = OperatorTemplate(name="op2", equations=[f"{base}' = -b*{base} + c"], variables={base: f"output({r2})", "b": b, "c": c0}, path=None)
+                                op3 = OperatorTemplate(name="op3", equations=[f"v' = -v/tau + k*{base} + {shadow}"],
+                                                       variables={"v": f"output({v})", base: "input(0.125)", shadow: (f"input({bias})" if decl == "input" else bias), "k": k, "tau": tau}, path=None)
+                                c = CircuitTemplate(name="sc", nodes={"p": NodeTemplate(name="sn", operators=[op1, op2, op3], path=None)}, edges=[], path=None)
+                                func, args, names, smap = c.get_run_func("sf", step_size=1e-3, vectorize=vec, float_precision="float64", verbose=False, clear=True, in_place=False)
+                                dy = np.asarray(func(*args), dtype=float)
+                                got = {p_: float(dy[i]) for p_, i in smap.items() if isinstance(i, (int, np.integer))}
+                                done += 1
+                                if got != exp:
+                                    bad.append({"summed_input": base, "variable_named_like_a_label": shadow, "declared_as": decl, "vectorize": vec, "got": got, "expected": exp})
+                            except Exception as e:
+                                bad.append({"summed_input": base, "variable_named_like_a_label": shadow, "declared_as": decl, "vectorize": vec, "raise": f"{type(e).__name__}: {str(e)[:160]}"})
+                            clear_frontend_caches()
+    return {"done": done, "bad": bad}
+
+
 # ------------------------------------------------------------------ float stream (registry functions and constants)
 FLOAT_CASES = [
     ("sin(a) + cos(b)", lambda a, b: math.sin(a) + math.cos(b)), ("exp(-a) * b", lambda a, b: math.exp(-a) * b), ("tanh(a - b)", lambda a, b: math.tanh(a - b)),
@@ -204,6 +255,7 @@ FLOAT_CASES = [
     ("sinh(a) - cosh(b)", lambda a, b: math.sinh(a) - math.cosh(b)), ("arctan(a * b)", lambda a, b: math.atan(a * b)), ("sign(a - b)", lambda a, b: (a > b) - (a < b)),
     ("exp(a)^2", lambda a, b: math.exp(a) ** 2), ("sin(a)^2 + cos(a)^2", lambda a, b: 1.0), ("sigmoid(a) * sigmoid(-a)", lambda a, b: (1 / (1 + math.exp(-a))) * (1 / (1 + math.exp(a)))),
     ("E * a", lambda a, b: math.e * a), ("tan(a / 4.0)", lambda a, b: math.tan(a / 4)),
+    ("sigmoid(800.0 + a*a)", lambda a, b: 1.0), ("sigmoid(-800.0 - a*a) + b", lambda a, b: 0.0 + b), ("sigmoid(40.0*a)", lambda a, b: 1 / (1 + math.exp(-40 * a)) if a > -17 else math.exp(40 * a)),
 ]
 
 
@@ -329,6 +381,10 @@ def check(tier, seed, replay=None):
                     if o[path] != case["value"]:
                         ok = False
                         bad.append({"string": v["string"], "path": path, "got": o[path], "expected": case["value"], "env": case["env"], "ast": case["expr"], "case": case})
+                if case.get("env2") and o.get("direct2") != case["value2"]:
+                    ok = False
+                    bad.append({"string": v["string"], "path": "direct, re-evaluated after set_value", "got": o.get("direct2"), "expected": case["value2"], "env": case["env2"],
+                                "ast": case["expr"], "case": case})
             if ok:
                 rep.validated()
     drv.close()
@@ -365,7 +421,8 @@ def check(tier, seed, replay=None):
         rep.violation(f"a variable named `{rbad[0]['variable_name']}` is accepted but does not mean its declared value in the generated code", {"reserved": rbad})
     fl = C.run_forked(float_stream, [seed])[0] if not replay else {"done": 0, "bad": []}
     ix = C.run_forked(index_stream, [0])[0] if not replay else {"done": 0, "bad": []}
-    for nm, st in (("float", fl), ("index", ix)):
+    sh = C.run_forked(shadow_stream, [0], timeout=900)[0] if not replay else {"done": 0, "bad": []}
+    for nm, st in (("float", fl), ("index", ix), ("shadow-label", sh)):
         if "crash" in st:
             raise C.HarnessError(f"{nm} stream crashed: " + str(st)[:600])
         rep.count(nm + "-stream", None, n=st["done"])
@@ -377,9 +434,11 @@ def check(tier, seed, replay=None):
         rep.violation(f"the equation string `{b['string']}` does not evaluate to the value its arithmetic denotes ({b['path']} path)", b)
     if fl["bad"]:
         rep.violation(f"registry function/constant deviates from its NumPy meaning: {fl['bad'][0]['expr']}", {"float_stream": fl["bad"][:4]})
+    if sh["bad"]:
+        rep.violation(f"a variable named `{sh['bad'][0]['variable_named_like_a_label']}` is confused with the label of a summed source", {"shadow_stream": sh["bad"][:4]})
     if ix["bad"]:
         rep.violation(f"index helper deviates from NumPy indexing: {ix['bad'][0]['expr']}", {"index_stream": ix["bad"][:4]})
-    if not (bad or fl["bad"] or ix["bad"] or rbad) and not proof_ok:
+    if not (bad or fl["bad"] or ix["bad"] or rbad or sh["bad"]) and not proof_ok:
         why = {"proof_ok": proof_ok, "build_log_tail": detail["build_log_tail"], "forbidden": detail["forbidden"],
                "audit_failures": (detail["audit"] or {}).get("failures"), "broken": "theorems of PyRatesModel.Props.C05 (build/audit)"}
         rep.violation("C05 is no longer shown to hold: " + why["broken"], why, no_input=True, name="unproved")
